@@ -869,6 +869,8 @@ func c17Guards(p *Prog, r *Report) {
 		return
 	}
 	const limit = 100
+	// mapWorld: the answer of every "_, ok := localMap[key]" in the evaluated body (the rule runs both worlds)
+	mapWorld := false
 	evalBody := func(loop *loopRef, count int64) (creates, removes bool, resetCount, newName, sameRoot bool, err error) {
 		body := p.NewFlat(fi.Pkg, loop.body)
 		valObj := loop.val
@@ -910,6 +912,7 @@ func c17Guards(p *Prog, r *Report) {
 				}
 			}
 		}
+		env.MapOk = func(_ *Env, _ *ast.IndexExpr) (*Val, bool, bool) { return nil, mapWorld, true }
 		visited, _, werr := body.WalkPath(env)
 		if werr != nil {
 			return false, false, false, false, false, werr
@@ -1003,8 +1006,14 @@ func c17Guards(p *Prog, r *Report) {
 	// C17.c
 	good = true
 	detail = ""
-	for _, cnt := range []int64{limit - 1, limit, limit + 1} {
+	for _, wc := range []struct {
+		cnt int64
+		m   bool
+	}{{limit - 1, false}, {limit, false}, {limit + 1, false}, {limit - 1, true}, {limit, true}, {limit + 1, true}} {
+		cnt := wc.cnt
+		mapWorld = wc.m
 		creates, removes, reset, newName, sameRoot, err := evalBody(dirLoop, cnt)
+		mapWorld = false
 		if err != nil {
 			r.Undecided("C17.c", kDirGet+"#rotation-guard", p.pos(dirLoop.node), err.Error())
 			good = false
